@@ -122,7 +122,13 @@ pub fn expand(seed: u32, n: usize) -> Vec<u8> {
     // 1 seed in 32: content that looks like protocol structure rather than noise (payloads that start with a frame header,
     // a token signature, a DER header; constant and alternating fills)
     if seed >> 27 == 0x1F {
-        let magic: &[u8] = match (seed >> 16) % 14 {
+        // headers that announce exactly n bytes: a payload that is itself a complete frame / token of its own length
+        let own: [Vec<u8>; 4] = [vec![3, 0, (n >> 8) as u8, n as u8], vec![0, n as u8], vec![0, 0x80 | (n >> 8) as u8, n as u8], vec![0x30, 0x82, (n.saturating_sub(4) >> 8) as u8, n.saturating_sub(4) as u8]];
+        let magic: &[u8] = match (seed >> 16) % 18 {
+            14 => &own[0],
+            15 => &own[1],
+            16 => &own[2],
+            17 => &own[3],
             0 => &[0xFF],
             1 => &[3, 0, 0, 4],
             2 => &[3, 0, 0xFF, 0xFF],
